@@ -188,8 +188,13 @@ func (z *Zone) answer(m *dns.Msg, rawName, name string, qtype uint16, do bool) *
 			z.chase(m, cn[0].(*dns.CNAME).Target, qtype, do, 0)
 			return &Answer{Msg: m, Kind: "wildcard"}
 		}
-		// wildcard NODATA
+		// wildcard NODATA (RFC 5155 §7.2.5 also wants the closest encloser itself)
 		denial := append(noCloser, z.noDataProof(wild)...)
+		if z.Signed && z.NSEC3 {
+			if m := z.nsec3Matching(ce); m != nil {
+				denial = append(denial, m)
+			}
+		}
 		z.negative(m, denial, do)
 		return &Answer{Msg: m, Kind: "nodata"}
 	}
